@@ -23,18 +23,18 @@ REOPEN = {"op": "SaveReopen", "p": 0, "v": {"cls": "INIT", "anchor": "", "delta"
 OPS = ("Set", "SetNone", "SetOut", "SaveReopen")
 
 
-def explore(work, name, depth, lvl, nk, big=False):
+def explore(work, name, depth, lvl, kinds, big=False):
     """TLC enumerates every assignment sequence of the configuration; returns (leaf sequences, action tables, result)."""
     cfg = os.path.join(work, "MC_Props_%s.cfg" % name)
     with open(cfg, "w") as f:
-        f.write(CFG % (", ".join(str(i + 1) for i in range(nk)), depth, lvl))
+        f.write(CFG % (", ".join(str(i) for i in kinds), depth, lvl))
     acts_file = os.path.join(work, "acts_%s.json" % name)
     # -coverage 1 (per-disjunct counts) on the small configurations; the big thorough pairs run is counted from its output
     r = E.run_tlc("MC_Props", cfg, work=work, workers=12 if big else 6, timeout=1500, heap="8g", extra=[] if big else ["-coverage", "1"],
                   env={"CAT_FILE": os.path.join(work, "cat.json"), "ACTS_FILE": acts_file})
     if r.invariant_violated or "is violated" in r.out or "Assumption" in r.out and "is false" in r.out:
         raise E.MachineryError("MC_Props[%s]: design-level sanity failed (%s); see %s" % (name, r.invariant_violated, work))
-    sts = r.printed("ST")
+    sts = sorted(r.printed("ST"), key=lambda s: (s["k"], s["h"]))      # TLC workers print in any order; scenario ids must not depend on it
     dom = r.printed("DOMAIN")
     if not dom or len(sts) != dom[-1]["leaves"]:
         raise E.MachineryError("MC_Props[%s]: %d sequences emitted, %s expected" % (name, len(sts), dom))
@@ -207,8 +207,12 @@ def main() -> int:
         # (name, depth, value-class level): every sequence of exactly `depth` assignments, then SaveReopen
         # thorough: the pairs run over ALL value classes (level 1); quick: over the pair classes (level 2)
         cfgs = [("sweep", 1, 1, False), ("pairs", 2, 1 if thorough else 2, thorough), ("triples", 3, 3, False)]
+        # quick: the two axis kinds (23 and 17 triple-level actions: 17 000 of 42 000 triples) are left to the thorough tier
+        allk = list(range(1, len(cat) + 1))
+        kinds_of = {"sweep": allk, "pairs": allk,
+                    "triples": allk if thorough else [i for i in allk if knames[i - 1] not in ("ValueAxis", "CategoryAxis")]}
         with cf.ThreadPoolExecutor(len(cfgs)) as ex:
-            res = list(ex.map(lambda c: explore(work, c[0], c[1], c[2], len(cat), c[3]), cfgs))
+            res = list(ex.map(lambda c: explore(work, c[0], c[1], c[2], kinds_of[c[0]], c[3]), cfgs))
         sweep_acts = None
         for (name, depth, lvl, big), (sts, acts, r) in zip(cfgs, res):
             states += r.distinct
@@ -222,7 +226,7 @@ def main() -> int:
                 for a in sc:                    # actions of the enumerated sequences, per kind of action
                     actions[a["op"]] = actions.get(a["op"], 0) + 1
                 jobs.append(("%s:%d" % (name, i), kn, K["deck"], K["path"], sc))
-            per_cfg[name] = {"assignments": depth, "value_class_level": lvl, "sequences": len(sts), "tlc_distinct": r.distinct,
+            per_cfg[name] = {"assignments": depth, "value_class_level": lvl, "kinds": len(kinds_of[name]), "sequences": len(sts), "tlc_distinct": r.distinct,
                              "tlc_wall_s": round(r.wall, 1), "actions_per_kind": {knames[i]: len(a) for i, a in enumerate(acts)}}
             if name == "sweep":
                 sweep_acts = acts
@@ -316,7 +320,13 @@ def main() -> int:
                 raise E.MachineryError("vacuous: no real %s step was executed" % op)
         if not outs.get("ok") or not outs.get("refused") or not tot.get("readback") or not tot.get("none") or not tot.get("refusedJ"):
             raise E.MachineryError("vacuous: outcomes %s, judgements %s" % (outs, tot))
-    smp = [t for t in traces if t["id"].startswith("pairs")][:1] + [t for t in traces if t["id"].startswith("corpus")][:1] or traces[:1]
+    def telling(t):         # two different properties, a rounding-threshold or interior value, readings that moved
+        st = t["steps"]
+        return len(st) == 3 and st[0]["a"]["p"] != st[1]["a"]["p"] and st[0]["dr"] and st[1]["dr"] and \
+            any(x["a"]["v"]["anchor"] in ("thr", "mid") for x in st[:2]) and all(x["out"] == "ok" for x in st)
+    smp = [t for t in traces if t["id"].startswith("pairs") and telling(t)][:1] + \
+          [t for t in traces if t["id"].startswith("sweep") and t["steps"][0]["a"]["op"] == "SetOut" and t["steps"][0]["out"] != "ok"][:1] + \
+          [t for t in traces if t["id"].startswith("corpus") and t["steps"][0]["dr"]][:1] or traces[:1]
     samples = []
     for t in smp:
         j = byid[t["id"]]
